@@ -1,6 +1,6 @@
 (* C10 — validated trees never hit unresolved names or arity errors at run time. Property theorems only. *)
 Require Import ZArith NArith Bool List Arith Lia. Import ListNotations.
-Require Import F64 Dec Types Generic Lang Opt IO OptFacts ValidFacts GenArity.
+Require Import F64 Dec Types Generic Lang Opt IO OptFacts OptFacts4 ValidFacts GenArity.
 
 (* accepted by check_variables_and_functions => execute never fails with UndefinedVariable / FunctionNotFound,
    for every tree and every coherent environment *)
@@ -28,6 +28,11 @@ Proof.
   - destruct (Nat.eqb k 0); reflexivity.
 Qed.
 Print Assumptions C10_arity_table_is_the_codes.
+
+(* the tree is still accepted after optimize (also after a partial rewrite that ended in an error), for every fuel *)
+Theorem C10_stable_under_optimize : forall E k e acc, check_names E e = None -> check_names E (snd (fst (optimize_t E k e acc))) = None.
+Proof. exact optimize_t_keeps_validated. Qed.
+Print Assumptions C10_stable_under_optimize.
 
 (* a rejection names a variable / function that occurs in the tree and that the environment does not resolve *)
 Theorem C10_names_offender : forall E e, names_offender E e.
